@@ -60,20 +60,21 @@ CHECKS = {
         level="translation_validation",
         text="A term language for models (nested subgraphs, functions, initializers) with a denotational semantics over "
              "UNINTERPRETED operators (interp is a Section variable constrained only by what the passes rely on) and executable "
-             "models of 15 passes. Proved in Coq for every interp/environment (closed): a generic simulation theorem "
-             "(replace-uses, remove-dead, eliminate-identity, lift-constant), semantics + signature preservation of "
-             "IdentityElimination, both initializer deduplication passes, LiftConstantsToInitializers, TopologicalSort "
-             "(as a relation), and of any sequence of identity elimination / dedup / DCE; DCE and one CSE merge step are "
-             "partial; the BatchNormalization training_mode defect is refuted with a witness (known finding). NOT proved: CSE "
-             "as a whole, OutputFix, LiftSubgraphInitializers, Add/RemoveInitializersFromInputs, RemoveUnusedFunctions "
-             "(modelled, compared structurally), Inline and AddDefaultAttributes (oracle only) — hence translation validation: "
-             "the real pass output, converted to terms, must agree with the model pass inside Coq on generated valid models "
-             "and pass sequences, and the oracle executes before/after with onnx.reference / onnxruntime (bitwise, NaN-aware), "
-             "checks the I/O signature and runs onnx.checker. The CSE non-deterministic operator set is regenerated from source.",
+             "models of 15 passes. Proved in Coq for every interp/environment/fuel (closed, 22 theorems): semantics + signature "
+             "preservation of CommonSubexpressionElimination (whole pass: loop + graph-output Identity path, exact key), "
+             "RemoveUnusedNodes (incl. schema-driven optional-output trimming, schema as parameter; the BatchNormalization "
+             "training_mode case is refuted = known finding), IdentityElimination, both initializer deduplication passes, "
+             "LiftConstantsToInitializers, OutputFix, LiftSubgraphInitializers, Add/RemoveInitializersFromInputs, "
+             "AddDefaultAttributes (defaults table as parameter), TopologicalSort (as a checked relation), and C05_sequence over "
+             "these eleven passes. NOT proved: InlinePass and RemoveUnusedFunctionsPass (modelled / execution oracle only); "
+             "NameFix, ClearMetadata, ShapeInference, RemoveUnusedOpsets get a frame check only (names/metadata are outside the "
+             "term language) — hence translation validation for the property as a whole: the real pass output, converted to "
+             "terms, must agree with the model pass inside Coq on generated valid models and pass sequences, and the oracle "
+             "executes before/after with onnx.reference / onnxruntime (bitwise, NaN-aware), checks the I/O signature and "
+             "runs onnx.checker. The CSE non-deterministic operator set is regenerated from source.",
         note=TRUST + "Modelled, not verified: real operator semantics (uninterpreted), onnx.checker beyond the structural Valid, "
-             "shape inference, schemas (optional outputs, default attributes). NameFix/ClearMetadata/ShapeInference/"
-             "RemoveUnusedOpsets: frame check only (names and metadata are outside the term language).",
-        technique="Coq simulation proofs for 5 passes + per-case Coq comparison of real pass outputs with model passes; execution oracle",
+             "shape inference, schemas (optional outputs, default attributes).",
+        technique="Coq simulation proofs for 11 passes + per-case Coq comparison of real pass outputs with model passes; execution oracle",
         design_ref="§6 C05, §10"),
     "C06": dict(
         level="proof",
